@@ -19,20 +19,20 @@ theorem flushLoop_cont {fuel : Nat} {s s' : St} {ev : Ev} (h : sendStep s = .con
     flushLoop (fuel + 1) s = ((flushLoop fuel s').1, ev :: (flushLoop fuel s').2.1, (flushLoop fuel s').2.2) := by
   rw [flushLoop_succ, h]
 
-theorem sendStep_empty {s : St} (hl : s.len = 0) : sendStep s = .stop { s with want := false } [] true := by
+theorem sendStep_empty {s : St} (hl : s.len = 0) : sendStep s = .stop { s with want := wantAfterDrain s } [] true := by
   unfold sendStep; rw [if_pos hl]
 
 theorem flushLoop_empty {fuel : Nat} {s : St} (hl : s.len = 0) :
-    flushLoop (fuel + 1) s = ({ s with want := false }, [], true) :=
+    flushLoop (fuel + 1) s = ({ s with want := wantAfterDrain s }, [], true) :=
   flushLoop_stop (sendStep_empty hl)
 
 theorem jstep_refuse {j : J} {n : Nat} {res : Res} (hd : j.dead = false) (hn : ¬ j.q.length < n)
-    (hres : res = .wouldBlock ∨ res = .intr) : jstep j (.send n res []) = refused j := by
-  rcases hres with rfl | rfl <;> simp [jstep, hd, hn]
+    (hres : KeepRes res) : jstep j (.send n res []) = refused j := by
+  rcases hres with rfl | rfl | ⟨e, rfl, hk⟩ <;> simp [jstep, hd, hn, *]
 
 theorem jstep_fail {j : J} {n : Nat} {res : Res} (hd : j.dead = false) (hn : ¬ j.q.length < n)
-    (hres : res = .pipe ∨ ∃ e, res = .err e) : jstep j (.send n res []) = { j with dead := true } := by
-  rcases hres with rfl | ⟨e, rfl⟩ <;> simp [jstep, hd, hn]
+    (hres : DeadRes res) : jstep j (.send n res []) = { j with dead := true } := by
+  rcases hres with rfl | ⟨e, rfl, hk⟩ <;> simp [jstep, hd, hn, *]
 
 theorem rel_facts {s : St} {rest : Option (List Byte)} {j : J} (h : Inv s) (hg : s.gone = false) (hr : Rel s rest j)
     (hl : s.len ≠ 0) : j.dead = false ∧ ¬ j.q.length < chunkLen s := by
@@ -45,7 +45,8 @@ theorem rel_facts {s : St} {rest : Option (List Byte)} {j : J} (h : Inv s) (hg :
 theorem flushLoop_inert : ∀ (fuel : Nat) (s : St) (rest : Option (List Byte)) (j : J),
     Inv s → s.gone = false → s.len < fuel → inert rest → Rel s rest j →
     StepPost s (flushLoop fuel s).1 ∧ (flushLoop fuel s).1.gone = !(flushLoop fuel s).2.2 ∧
-    ((flushLoop fuel s).2.2 = true → (flushLoop fuel s).1.len = 0 ∨ (flushLoop fuel s).1.want = true) ∧
+    ((flushLoop fuel s).2.2 = true → (flushLoop fuel s).1.len = 0 ∨ (flushLoop fuel s).1.want = true ∨
+        (flushLoop fuel s).1.console = true) ∧
     Rel (flushLoop fuel s).1 rest (judgeFrom j (flushLoop fuel s).2.1) := by
   intro fuel
   induction fuel with
@@ -54,7 +55,7 @@ theorem flushLoop_inert : ∀ (fuel : Nat) (s : St) (rest : Option (List Byte)) 
     intro s rest j h hg hf hi hr
     by_cases hl : s.len = 0
     · rw [flushLoop_empty hl]
-      exact ⟨⟨h.of_eq rfl rfl rfl rfl rfl, Nat.le_refl _, rfl, rfl, rfl⟩, hg, fun _ => Or.inl hl,
+      exact ⟨⟨h.of_eq rfl rfl rfl rfl rfl, Nat.le_refl _, rfl, rfl, rfl, rfl⟩, hg, fun _ => Or.inl hl,
              ⟨hr.bad, hr.dead, hr.q⟩⟩
     · obtain ⟨hjd, hqn⟩ := rel_facts h hg hr hl
       obtain ⟨c1, c2, c3⟩ := chunk_ok h hl
@@ -71,11 +72,11 @@ theorem flushLoop_inert : ∀ (fuel : Nat) (s : St) (rest : Option (List Byte)) 
         dsimp only at hj1
         have hinv' : Inv s' := by rw [← hs']; exact consume_inv h hml _ _
         have hg' : s'.gone = false := by rw [← hs']; exact hg
-        have hlen' : s'.len < s.len := by rw [← hs']; show s.len - _ < s.len; omega
+        have hlen' : s'.len < s.len := by rw [← hs', consume_eq]; show s.len - _ < s.len; omega
         have hsp : StepPost s s' := by
-          refine ⟨hinv', by omega, by rw [← hs']; rfl, by rw [← hs']; rfl, ?_⟩
+          refine ⟨hinv', by omega, by rw [← hs']; rfl, by rw [← hs']; rfl, ?_, by rw [← hs']; rfl⟩
           rw [← hs', consume_contents hml, bytesAt_eq_take h (by omega) hml]
-          simp only [consume, List.reverse_append, List.reverse_reverse, List.append_assoc, List.take_append_drop]
+          simp only [consume_eq, List.reverse_append, List.reverse_reverse, List.append_assoc, List.take_append_drop]
         have hr' : Rel s' rest (jstep j ev) := by
           rw [hj1]
           by_cases h0 : s'.len = 0
@@ -88,7 +89,8 @@ theorem flushLoop_inert : ∀ (fuel : Nat) (s : St) (rest : Option (List Byte)) 
         obtain ⟨p1, p2, p3, p4⟩ := ih s' rest (jstep j ev) hinv' hg' (by omega) hi hr'
         exact ⟨hsp.trans p1, p2, p3, p4⟩
       · rw [flushLoop_stop hs]; dsimp only
-        refine ⟨⟨h.of_eq rfl rfl rfl rfl rfl, Nat.le_refl _, rfl, rfl, rfl⟩, hg, fun _ => Or.inr rfl, ?_⟩
+        refine ⟨⟨h.of_eq rfl rfl rfl rfl rfl, Nat.le_refl _, rfl, rfl, rfl, rfl⟩, hg,
+          (fun _ => Or.inr (by cases hcn : s.console <;> simp [wantAfterRefusal, hcn])), ?_⟩
         simp only [judgeFrom_cons, judgeFrom_nil]
         rw [jstep_refuse hjd hqn hres]
         have hi' : inert j.cur := by rw [hcur]; exact hi
@@ -96,7 +98,7 @@ theorem flushLoop_inert : ∀ (fuel : Nat) (s : St) (rest : Option (List Byte)) 
         exact ⟨by rw [c]; exact hr.bad, by rw [d]; exact hr.dead,
                fun hg2 => ⟨by rw [a]; exact (hr.q hg).1, by rw [b]; exact hcur⟩⟩
       · rw [flushLoop_stop hs]; dsimp only
-        refine ⟨⟨h.of_eq rfl rfl rfl rfl rfl, Nat.le_refl _, rfl, rfl, rfl⟩, by simp [St.gone], (fun hc => by cases hc), ?_⟩
+        refine ⟨⟨h.of_eq rfl rfl rfl rfl rfl, Nat.le_refl _, rfl, rfl, rfl, rfl⟩, by simp [St.gone], (fun hc => by cases hc), ?_⟩
         simp only [judgeFrom_cons, judgeFrom_nil]
         rw [jstep_fail hjd hqn hres]
         exact ⟨hr.bad, by simp [St.gone], fun hg2 => by simp [St.gone] at hg2⟩
@@ -132,11 +134,11 @@ theorem flushLoop_active (c : Byte) (cs : List Byte) : ∀ (fuel : Nat) (s : St)
       dsimp only at hj1
       have hinv' : Inv s' := by rw [← hs']; exact consume_inv h hml _ _
       have hg' : s'.gone = false := by rw [← hs']; exact hg
-      have hlen' : s'.len < s.len := by rw [← hs']; show s.len - _ < s.len; omega
+      have hlen' : s'.len < s.len := by rw [← hs', consume_eq]; show s.len - _ < s.len; omega
       have hsp : StepPost s s' := by
-        refine ⟨hinv', by omega, by rw [← hs']; rfl, by rw [← hs']; rfl, ?_⟩
+        refine ⟨hinv', by omega, by rw [← hs']; rfl, by rw [← hs']; rfl, ?_, by rw [← hs']; rfl⟩
         rw [← hs', consume_contents hml, bytesAt_eq_take h (by omega) hml]
-        simp only [consume, List.reverse_append, List.reverse_reverse, List.append_assoc, List.take_append_drop]
+        simp only [consume_eq, List.reverse_append, List.reverse_reverse, List.append_assoc, List.take_append_drop]
       by_cases h0 : s'.len = 0
       · -- drained: the oracle refills at this very event, the loop stops without another event
         have hfuel : ∃ f, fuel = f + 1 := ⟨fuel - 1, by omega⟩
@@ -144,7 +146,7 @@ theorem flushLoop_active (c : Byte) (cs : List Byte) : ∀ (fuel : Nat) (s : St)
         rw [flushLoop_empty h0]
         simp only [judgeFrom_cons, judgeFrom_nil]
         rw [if_pos h0] at hj1
-        have hrf : RelF { s' with want := false } (c :: cs) (jstep j ev) := by
+        have hrf : RelF { s' with want := wantAfterDrain s' } (c :: cs) (jstep j ev) := by
           rw [hj1]
           refine ⟨?_, ?_, ?_⟩
           · simp [refill, hcur, hr.bad]
@@ -156,7 +158,7 @@ theorem flushLoop_active (c : Byte) (cs : List Byte) : ∀ (fuel : Nat) (s : St)
               rw [contents_length]; rfl
             · show some (fit (N - (contents s').length) (c :: cs)).2 = _
               rw [contents_length]
-        refine ⟨hsp.trans ⟨hinv'.of_eq rfl rfl rfl rfl rfl, Nat.le_refl _, rfl, rfl, rfl⟩, hg', ?_, ?_⟩
+        refine ⟨hsp.trans ⟨hinv'.of_eq rfl rfl rfl rfl rfl, Nat.le_refl _, rfl, rfl, rfl, rfl⟩, hg', ?_, ?_⟩
         · intro _
           refine ⟨fun _ => hrf, fun he => ?_⟩
           have : s'.len = s.len := he
@@ -177,7 +179,7 @@ theorem flushLoop_active (c : Byte) (cs : List Byte) : ∀ (fuel : Nat) (s : St)
     · rw [flushLoop_stop hs]; dsimp only
       simp only [judgeFrom_cons, judgeFrom_nil]
       rw [jstep_refuse hjd hqn hres]
-      refine ⟨⟨h.of_eq rfl rfl rfl rfl rfl, Nat.le_refl _, rfl, rfl, rfl⟩, hg, ?_, ?_⟩
+      refine ⟨⟨h.of_eq rfl rfl rfl rfl rfl, Nat.le_refl _, rfl, rfl, rfl, rfl⟩, hg, ?_, ?_⟩
       · intro _
         refine ⟨fun hp => ?_, fun _ hp => ?_⟩
         · have hp' : j.progress = true := by
@@ -199,7 +201,7 @@ theorem flushLoop_active (c : Byte) (cs : List Byte) : ∀ (fuel : Nat) (s : St)
     · rw [flushLoop_stop hs]; dsimp only
       simp only [judgeFrom_cons, judgeFrom_nil]
       rw [jstep_fail hjd hqn hres]
-      refine ⟨⟨h.of_eq rfl rfl rfl rfl rfl, Nat.le_refl _, rfl, rfl, rfl⟩, by simp [St.gone], ?_, ?_⟩
+      refine ⟨⟨h.of_eq rfl rfl rfl rfl rfl, Nat.le_refl _, rfl, rfl, rfl, rfl⟩, by simp [St.gone], ?_, ?_⟩
       · intro hc; cases hc
       · intro _; exact ⟨hr.bad, rfl⟩
 
